@@ -58,6 +58,54 @@ KNOWN_3WAY = "three-way cell: reduce/reduce settled before precedence"
 KNOWN_EXPECT = "%expect/%expect-rr is not compared when the table has no conflict at all (declared count != 0 yet the build succeeds)"
 
 
+# /repo 4ff022d (GrammarAST::unused_symbols): the %prec token of every reachable production counts as used, so a grammar whose
+# only "unused" tokens are precedence pseudo-tokens (UMINUS) builds with the builder's DEFAULT options.  False = the pinned
+# code: such a token is expected to be reported (and the default build to fail for that reason, outside the %expect clause).
+PREC_USED_FIXED = True
+
+
+def gram_warnings(g, prec_used_fixed=None):
+    """the warnings GrammarAST::warnings owes for an abstract grammar (gen.grammars.Gram), from first principles and
+    independently of the implementation: (unreachable rules, unused tokens).  Tokens of the grammar = the names that occur as
+    a symbol or after %prec in ANY production (Gram.render declares none with %token); a token is used when a production of
+    a rule reachable from the start rule has it as a symbol or (since /repo 4ff022d) names it by %prec; %implicit_tokens
+    are exempt.  The same definition as C10/YpPrecUsedSpec.v (reach_rule / reach_prod; theorem prec_token_is_used)."""
+    fixed = PREC_USED_FIXED if prec_used_fixed is None else prec_used_fixed
+    rules = {}
+    for n, ps in g.rules:
+        rules.setdefault(n, []).extend(ps)
+    all_t, used_t, seen, todo = [], set(), set(), []
+    for n, ps in g.rules:
+        for syms, prec in ps:
+            for k, x in syms:
+                if k == 't' and x not in all_t:
+                    all_t.append(x)
+            if prec and prec not in all_t:
+                all_t.append(prec)
+    if g.start in rules:
+        seen.add(g.start)
+        todo.append(g.start)
+    while todo:
+        for syms, prec in rules[todo.pop()]:
+            if prec and fixed:
+                used_t.add(prec)
+            for k, x in syms:
+                if k == 't':
+                    used_t.add(x)
+                elif x not in seen:
+                    seen.add(x)
+                    if x in rules:
+                        todo.append(x)
+    return ([n for n in dict.fromkeys(n for n, _ in g.rules) if n not in seen],
+            [x for x in all_t if x not in used_t and x not in g.implicit])
+
+
+def pseudo_tokens(g):
+    """tokens named by %prec of some production that occur in no right-hand side (UMINUS style)"""
+    rhs = {x for _, ps in g.rules for syms, _ in ps for k, x in syms if k == 't'}
+    return sorted({prec for _, ps in g.rules for _, prec in ps if prec and prec not in rhs})
+
+
 def pp_cell(c):
     return "Error" if c is None else {"S": "Shift(%s)", "R": "Reduce(%s)", "A": "Accept%s"}[c[0]] % (c[1] if len(c) > 1 else "")
 
@@ -224,7 +272,16 @@ def check_table(ctx, g, fam, d, ms, gid="?"):
     for c, b in bov.items():
         bc[0] += len(b[1]) - len(ysr.get(c, []))
         bc[1] += len(b[2]) - len(yrr.get(c, []))
+    # observation (audit c03b/2): in a cell with >= 3 reductions the implementation compares each newly met reduction with the
+    # cell's CURRENT content, in the hash order of the items: a recorded pair's first component can be a production that was
+    # displaced later — (A1,A2),(A0,A1) instead of (A0,A1),(A0,A2).  What is demanded (C03/Spec.v rr_ok, rr_like_yacc above):
+    # x < y both candidates, every displaced production exactly once as y, k-1 records.  Measured:
+    rr3 = {c: recs for c, recs in irr.items() if len(recs) >= 2}
+    rr3_off = {c: [(x, y) for x, y in recs if x != min(min(p) for p in recs)] for c, recs in rr3.items()}
     stats = {"cells": ncells, "sr_reported": nsr, "rr_reported": nrr, "resolution": kinds,
+             "rr_cells_with_3+_reductions": len(rr3), "rr_pairs_in_such_cells": sum(len(v) for v in rr3.values()),
+             "rr_cells_with_a_pair_not_against_the_kept_production": sum(1 for v in rr3_off.values() if v),
+             "rr_pairs_not_against_the_kept_production": sum(len(v) for v in rr3_off.values()),
              "rr_cells": len(cands), "max_rr_candidates": max([len(c) for c in cands.values()] + [0]),
              "three_way_cells": len(three),
              "three_way_cells_where_byacc_differs_from_cell_spec": sum(1 for v in three.values() if not v),
@@ -285,6 +342,23 @@ def byacc_totals(items):
     return n, agree, bad
 
 
+def UM_CORPUS():
+    from gen.grammars import Gram
+    t, r = (lambda x: ('t', x)), (lambda x: ('r', x))
+    return [
+        Gram(['-', 'n', 'UMINUS'], [("E", [[r('E'), t('-'), r('E')], ([t('-'), r('E')], 'UMINUS'), [t('n')]])],
+             precs=[("left", ['-']), ("left", ['UMINUS'])]),
+        Gram(['-', '*', 'n', 'UMINUS'], [("E", [[r('E'), t('-'), r('E')], [r('E'), t('*'), r('E')], ([t('-'), r('E')], 'UMINUS'), [t('n')]])],
+             precs=[("left", ['-']), ("left", ['*']), ("right", ['UMINUS'])]),
+        # the pseudo-token lends its precedence in an UNREACHABLE rule only: still reported (with the rule)
+        Gram(['-', 'n', 'UM'], [("E", [[r('E'), t('-'), r('E')], [t('n')]]), ("X", [([t('-'), r('E')], 'UM')])],
+             precs=[("left", ['-']), ("left", ['UM'])]),
+        # ... and in both
+        Gram(['-', 'n', 'UM'], [("E", [[r('E'), t('-'), r('E')], ([t('-'), r('E')], 'UM'), [t('n')]]), ("X", [([t('n')], 'UM')])],
+             precs=[("left", ['-']), ("nonassoc", ['UM'])]),
+    ]
+
+
 def expect_variants(rng, g, sr, rr, nvar, ycounts=None):
     """(expect, expectrr) pairs around the true counts"""
     pool = {(None, None), (sr, rr), (sr, None), (None, rr), (sr + 1, rr), (sr, rr + 1), (sr + 1, None), (None, rr + 1),
@@ -325,6 +399,8 @@ def run(ctx):
         import random as _random
         g3, f3 = c03gen.generate_three_way(_random.Random(ctx.seed * 7919 + 3), ctx.n(150, 3000), seen=[g.render() for g in grams])
         grams, fams = g3 + grams, f3 + fams
+        # audit c03b/1 (/repo 4ff022d): the textbook unary-minus grammar and relatives; every one goes through the default build
+        grams, fams = UM_CORPUS() + grams, ["prec_pseudo_corpus"] * len(UM_CORPUS()) + fams
     srcs = [g.render() for g in grams]
     impl = core.run_lines([exe_lr], [dump_case(s) for s in srcs])
     dumps = []
@@ -338,7 +414,9 @@ def run(ctx):
     tot = {"cells": 0, "sr_reported": 0, "rr_reported": 0, "rr_cells": 0, "three_way_cells": 0,
            "three_way_cells_where_byacc_differs_from_cell_spec": 0, "three_way_cells_where_byacc_and_bison_differ": 0,
            "three_way_cells_as_bison_not_byacc": 0, "three_way_cells_as_byacc_not_bison": 0,
-           "known_cells_entry_differs": 0, "known_cells_byacc_and_bison_agree": 0}
+           "known_cells_entry_differs": 0, "known_cells_byacc_and_bison_agree": 0,
+           "rr_cells_with_3+_reductions": 0, "rr_pairs_in_such_cells": 0,
+           "rr_cells_with_a_pair_not_against_the_kept_production": 0, "rr_pairs_not_against_the_kept_production": 0}
     known_cells = []
     known_tables = 0
     res_hist = {}
@@ -346,6 +424,7 @@ def run(ctx):
     tblerr = []
     for gi, (g, fam, d, ml) in enumerate(zip(grams, fams, dumps, model)):
         ctx.count("family_" + fam)
+        d.fam = fam
         if not d.ok:
             what = d.line.split()[0] if d.line else "EMPTY"
             ctx.count("not_built_" + what)
@@ -407,8 +486,14 @@ def run(ctx):
     # tables with known-class three-way cells first (the corpus grammars of the finding among them): there the counts
     # Yacc reports differ from the implementation's, so %expect is decided on different numbers
     pri = [x for x in built if x[1].known3][:ctx.n(20, 200)]
+    pri = [x for x in built if x[1].fam == "prec_pseudo_corpus"] + pri
+    # grammars with precedence pseudo-tokens and no warning owed: a share of every run (default build, see below)
+    psel = [x for x in built if not getattr(x[0], "raw", False) and not any(x is y for y in pri)
+            and pseudo_tokens(x[0]) and gram_warnings(x[0]) == ([], [])][:ctx.n(120, 1200)]
+    pri = pri + psel
     sel = pri + [x for x in built if not any(x is y for y in pri)][:nexp]
     cases = []
+    owed = {}            # case source -> (unreachable rules, unused tokens, pseudo-tokens) of its abstract grammar
     for g, d in sel:
         sr, rr = d.conflicts or (0, 0)
         yk = ((d.ycounts, d.bcounts, d.known3),)
@@ -418,6 +503,7 @@ def run(ctx):
         for e, err in expect_variants(rng, g, sr, rr, ctx.n(3, 5), d.ycounts):
             g.expect, g.expectrr = e, err
             cases.append((g.render(), e, err, sr, rr) + yk)
+            owed[cases[-1][0]] = gram_warnings(g) + (pseudo_tokens(g),)
         g.expect = g.expectrr = None
     ct = core.run_lines([exe_ct], [dump_case(c[0]) for c in cases])
     for i, (c, cl) in enumerate(zip(cases, ct)):
@@ -431,8 +517,8 @@ def run(ctx):
     # every case above went through build() with warnings_are_errors(false) and error_on_conflicts at its default (true).
     # Second pass: the same grammars through the deprecated but public process_file() (it copies the builder field by
     # field and then calls build()) and through build(), with warnings_are_errors x error_on_conflicts varied.  The
-    # number of grammar warnings is known from the first pass: warnings_are_errors(true) is only combined with grammars
-    # without warnings (with warnings such a build fails for a reason outside this clause).
+    # warnings OWED for a grammar are computed on the abstract grammar (gram_warnings): warnings_are_errors(true) is only combined
+    # with grammars that owe none (with owed warnings such a build fails for a reason outside this clause).
     base = [c + ("build", 0, 1) for c in cases]
     extra = []
     combos = [(0, 1), (1, 0), (0, 0), (1, 1)]
@@ -440,7 +526,10 @@ def run(ctx):
         if not cl.startswith("CT "):
             continue
         kv = dict(x.split("=", 1) for x in cl.split()[2:])
-        nowarn = kv.get("warn") == "0"
+        # whether warnings_are_errors(true) may be combined with this grammar is decided on the warnings OWED for the abstract
+        # grammar (gram_warnings: independent of the implementation), not on the number the implementation reports — a spurious
+        # warning (a precedence pseudo-token reported unused: /repo 4ff022d) must surface as a failing default build
+        nowarn = (owed[c[0]][:2] == ([], [])) if c[0] in owed else kv.get("warn") == "0"
         if replay:
             todo = [(api, w, e) for api in ("pf", "build") for (w, e) in combos if (api, w, e) != ("build", 0, 1)]
         else:
@@ -450,6 +539,10 @@ def run(ctx):
                 todo.append(("build",) + combos[1 + (i // 3) % 3])
             if i % 5 == 0:
                 todo.append(("pf",) + combos[(i // 5 + 2) % 4])
+            if c[0] in owed and owed[c[0]][2] and nowarn:
+                # a grammar with precedence pseudo-tokens and no warning owed: the builder's DEFAULT options
+                # (warnings_are_errors = true, error_on_conflicts = true)
+                todo.append(("build", 1, 1))
         for api, w, e in todo:
             if w and not nowarn:
                 w = 0
@@ -470,6 +563,8 @@ def run(ctx):
                                                              c[5][1][0], c[5][1][1]) for c in cases])
     n_known = 0
     n_known3 = 0
+    n_warn_cmp = n_default_pseudo = n_default_pseudo_ok = n_default_pseudo_err = 0
+    warn_reported = set()
     by_setting = {}
     for (src, e, err, sr, rr, ((ysr, yrr), (bsr, brr), k3), api, wae, eoc), cl, ml, mly, mlb in zip(cases, ct, mo, moy, mob):
         f = cl.split()
@@ -480,9 +575,25 @@ def run(ctx):
         verdict = f[1]
         entry = "CTParserBuilder::process_file()" if api == "pf" else "CTParserBuilder::build()"
         setting = "%s warnings_are_errors=%d error_on_conflicts=%d" % ("process_file" if api == "pf" else "build", wae, eoc)
-        if wae and kv.get("warn") != "0":
+        ow = owed.get(src)
+        if ow is not None and kv.get("warn") not in (None, "?"):
+            # the number of warnings of the AST against the warnings owed (C10's clause, the reason a default build fails)
+            n_warn_cmp += 1
+            if int(kv["warn"]) != len(ow[0]) + len(ow[1]) and src not in warn_reported:
+                warn_reported.add(src)
+                ctx.violation({"what": "GrammarAST::warnings reports %s warning(s); owed are the unreachable rules %r and the tokens "
+                                       "%r that no reachable production uses as a symbol or names by %%prec (with warnings_are_errors "
+                                       "at its default a spurious warning makes the build fail whatever the conflict counts)"
+                                       % (kv["warn"], ow[0], ow[1]), "grammar": src, "precedence_pseudo_tokens": ow[2],
+                               "harness": cl[:200]})
+                ctx.oblige(False)
+        if wae and (ow[:2] != ([], []) if ow is not None else kv.get("warn") != "0"):
             ctx.count("expect_case_outside_clause_warnings_are_errors")
             continue
+        if ow is not None and ow[2] and (api, wae, eoc) == ("build", 1, 1):
+            n_default_pseudo += 1
+            n_default_pseudo_ok += verdict == "ok"
+            n_default_pseudo_err += verdict == "err"
         # error_on_conflicts(false) is the documented switch that turns the %expect comparison off
         # rule_ok: the rule on Yacc's counts (the property); impl_ok: the rule on the counts the implementation
         # reports itself (they differ only on tables with known-class three-way cells)
@@ -531,11 +642,23 @@ def run(ctx):
                            "grammar": src, "settings": setting, "harness": cl[:200], "model": ml}, no_input=False)
         ctx.oblige(good or known_class)       # (a known3 case stays undischarged: excluded through the known finding)
         ctx.case("expect:%s:%s" % (setting, src), True, None)
+    if not replay:
+        ctx.oblige(n_default_pseudo >= ctx.n(100, 800) and n_default_pseudo_ok >= 20 and n_default_pseudo_err >= 20,
+                   "grammars with precedence pseudo-tokens went through the default build, both outcomes")
+    ctx.coverage["default_builds_of_grammars_with_precedence_pseudo_tokens"] = {
+        "builds": n_default_pseudo, "ok": n_default_pseudo_ok, "err(counts differ from %expect)": n_default_pseudo_err,
+        "warning_counts_compared_with_the_warnings_owed": n_warn_cmp}
     ctx.coverage["expect_builds_by_entry_point_and_settings"] = dict(sorted(by_setting.items()))
     ctx.coverage["cells_compared"] = tot["cells"]
     ctx.coverage["conflict_resolution_histogram"] = res_hist
     ctx.coverage["reported_conflicts_compared"] = {"shift_reduce": tot["sr_reported"], "reduce_reduce": tot["rr_reported"],
-                                                   "cells_with_2+_reduce_candidates": tot["rr_cells"]}
+                                                   "cells_with_2+_reduce_candidates": tot["rr_cells"],
+                                                   "cells_with_3+_reductions": tot["rr_cells_with_3+_reductions"],
+                                                   "pairs_recorded_in_cells_with_3+_reductions": tot["rr_pairs_in_such_cells"],
+                                                   "of_these_pairs_first_component_is_not_the_kept_production(observation: "
+                                                   "hash-order comparison chain; losers and count as demanded)":
+                                                       tot["rr_pairs_not_against_the_kept_production"],
+                                                   "cells_with_such_a_pair": tot["rr_cells_with_a_pair_not_against_the_kept_production"]}
     ctx.coverage["expect_builds"] = len(cases)
     ctx.coverage["expect_known_defect_instances"] = n_known
     ctx.coverage["three_way_cells"] = {
@@ -571,8 +694,14 @@ def run(ctx):
                             "variants: equal, +-1, absent, present with true count 0; every %expect case runs through build() with "
                             "warnings_are_errors(false)/error_on_conflicts(true), and again through the deprecated "
                             "process_file() (plus a share through build()) with warnings_are_errors x error_on_conflicts "
-                            "varied (warnings_are_errors(true) only on grammars without warnings); expected outcome = "
-                            "build_ok_spec when error_on_conflicts, success otherwise")
+                            "varied (warnings_are_errors(true) only on grammars for which NO WARNING IS OWED — unreachable rules / tokens "
+                            "no reachable production uses as a symbol or names by %prec, computed on the abstract grammar, not "
+                            "taken from the implementation; the implementation's warning count is compared with that number); "
+                            "grammars with precedence pseudo-tokens (UMINUS style: named by %prec, in no right-hand side; the "
+                            "audit's unary-minus grammar and relatives first) and no warning owed additionally through build() with "
+                            "the builder's DEFAULT options (warnings_are_errors = error_on_conflicts = true): Err iff the counts "
+                            "differ from %expect/%expect-rr; expected outcome = build_ok_spec when error_on_conflicts, success "
+                            "otherwise")
     ctx.assumptions += ["'the action Yacc prescribes' for a cell with a shift and two or more reductions is taken from byacc "
                         "(mkpar.c remove_conflicts: the shift is compared by precedence with every reduction in rule order "
                         "before the reduce/reduce rule applies) = extracted cell_yacc; a reported pair is a conflict byacc counts "
@@ -583,8 +712,10 @@ def run(ctx):
                         "(their correctness is C01/C02/C16's subject); C03 decides resolution and reporting on top of them",
                         "for k > 2 reduce/reduce candidates the property text does not fix which pairs are reported: count, "
                         "membership, x<y and 'every loser exactly once as second component' are demanded",
-                        "warnings_are_errors(true) is only combined with grammars for which the public AST reports no warning (a "
-                        "build that fails for a warning is outside the clause); error_on_conflicts(false) is the documented "
+                        "warnings_are_errors(true) is only combined with grammars for which no warning is OWED (gram_warnings in "
+                        "checks/C03.py: unreachable rules, tokens used by no reachable production as a symbol or %prec token — the "
+                        "notion of C10/YpPrecUsedSpec.v; replayed raw sources: the implementation's own count); a build that fails "
+                        "for an owed warning is outside the clause, one that fails for a spurious warning is a violation; error_on_conflicts(false) is the documented "
                         "switch that turns the %expect comparison off: such builds are expected to succeed; "
                         "process_file_in_src() (current_dir/src + OUT_DIR wrapper around process_file()) is not run; "
                         "only source generation is run, nothing is compiled",
